@@ -516,6 +516,12 @@ func (i *Iterator) sliceDomain(ctx context.Context) (
 	if err != nil {
 		return 0, 0, 0, err
 	}
+	if endOffset < startOffset {
+		// The two offsets are resolved one after the other; a delete that trims this
+		// domain in between leaves the end before the start. Nothing of the view is
+		// left in the domain.
+		return startOffset, align, 0, nil
+	}
 	return startOffset, align, endOffset - startOffset, nil
 }
 
